@@ -18,13 +18,15 @@ LEVEL_TEXT = ("Coq theorems for all rational sequences: the modelled index equal
               "check on every run; angular_difference is regenerated from functions.py (site S1). Proof is the right level because the "
               "deciding inputs are ties (equal gaps, exactly-180 gaps, antipodal pairs, duplicates) that samples seldom hit.")
 LEVEL_NOTE = ("trusted: hand model of the xarray plumbing (shift/sum skipna, max/min skipna=False, sel, mean) validated by correspondence; "
-              "translator for S1; binary64 rounding not modelled (inputs are dyadic, tolerance 1e-9)")
+              "translator for S1; binary64 rounding not modelled (inputs are dyadic, tolerance 1e-9; 1e-12 of the data's magnitude for scaled linear series)")
 TECHNIQUE = "Coq proof over an executable model + extracted-model correspondence check + invariance predicates on the implementation"
 SITES = ["S1", "C18.exceed"]
 RULE = ("sequences of length 1-8 on the dyadic grid k/4 (|k|<=32) with forced ties, monotone runs and NaN slots; angle sets on a 22.5-degree "
         "grid shifted beyond +-360 with antipodal pairs, duplicates and dyadic rotations (non-multiples of 10 degrees); arrays with 1-2 extra "
         "dims stored in shuffled coordinate order; selections by coordinate label (repeats, absent labels); thresholds including exact index "
-        "values. A case is distinct by the hash of (function, inputs, options) and non-trivial when at least one output value is finite")
+        "values; linear series, arrays, selections and proportion-exceeding inputs (data and thresholds) multiplied by 2**e, -40 <= e <= 40 and a few "
+        "exponents up to +-200 (exact in binary64), plus factors that are not powers of two from 1e-12 to 1e12, compared relative to the "
+        "magnitude of the data with no absolute floor. A case is distinct by the hash of (function, inputs, options) and non-trivial when at least one output value is finite")
 ASSUMPTIONS = ["labels along the sampling dimension are unique integers (xarray .sel on a unique index)",
                "inf inputs are outside the property's domain for the theorems (the model and the tie do cover them)"]
 TRUSTED = ["hand model of xarray shift / sum(skipna) / max,min(skipna=False) / sel / mean used by flip_flop_impl.py (validated by correspondence)"]
@@ -239,6 +241,219 @@ def array_oracle(ctx, ff, rng):
 
 
 # ------------------------------------------------------------------------------------------
+# magnitudes: the same dyadic series multiplied by 2**e, -40 <= e <= 40.  The scaled values, every successive difference,
+# every partial sum of the differences and max - min are exact in binary64, so the numerator of the index is the exact
+# rational and the only rounding is the final division by N - 2: the exact model / the Fraction oracle apply unchanged to
+# the scaled rational inputs and the comparison needs no absolute tolerance at all
+# ------------------------------------------------------------------------------------------
+EXPONENTS = list(range(-40, 41))
+# factors that are not powers of two (units: m/s, kg/kg, Pa, J/kg ...): the product rounds, relations hold to ~1e-16 relative
+FACTORS = [1e-12, -1e-12, 1e-10, 1e-9, -1e-9, 3.7e-8, 1e-6, -2.5e-4, 1e-3, 1e3, -4.2e5, 1e6, 1e9, -1e9, 6.02e11, 1e12]
+
+
+def rel_close(x, q, scale, tol=1e-12):
+    """implementation float x vs exact value q (Fraction / nan); the tolerance is RELATIVE TO THE MAGNITUDE OF THE DATA
+    (`scale` = largest |value| of the series), there is no absolute floor"""
+    x = float(x)
+    if isinstance(q, float) and np.isnan(q):
+        return bool(np.isnan(x))
+    if not np.isfinite(x):
+        return False
+    return abs(Fraction(x) - Fraction(q)) <= Fraction(tol) * Fraction(scale)
+
+
+def magnitude_of(vals):
+    f = [abs(v) for v in vals if np.isfinite(v)]
+    return max(f) if f else 0.0
+
+
+def gen_exponent(rng):
+    r = rng.random()
+    if r < 0.3:
+        return rng.choice([-40, -36, -33, -30, -27, 27, 30, 33, 40])         # 1e-12 .. 1e-8 and 1e8 .. 1e12
+    if r < 0.38:
+        return rng.choice([-200, -100, -60, -50, 50, 60, 100, 200])          # far from 1 but far from under/overflow as well
+    return rng.choice(EXPONENTS)
+
+
+def pow2(e):
+    return float(Fraction(2) ** e)
+
+
+def is_monotone(vals):
+    return all(a <= b for a, b in zip(vals, vals[1:])) or all(a >= b for a, b in zip(vals, vals[1:]))
+
+
+def compare_scaled(impl, tree, e, names=None):
+    """core.compare_result / compare_dataset for data that was multiplied by 2**e: implementation and model values are
+    both divided by 2**e first (exact on both sides), which makes core's 1e-9 tolerance relative to the magnitude of the data"""
+    if e == 0 or impl[0] != "ok" or core.is_err(tree):
+        return core.compare_dataset(impl, tree, names) if names is not None else core.compare_result(impl, tree)
+    inv = pow2(-e)
+
+    def one(val, t):
+        dims, shape, qs = core.dec_arr(t)
+        xs = core.da_flat(val * inv, dims)
+        if xs is None:
+            return False, f"dims differ: impl {getattr(val, 'dims', None)} model {dims}"
+        qs = [q if isinstance(q, float) else q * Fraction(inv) for q in qs]
+        if not core.close_list(xs, qs):
+            return False, f"values (divided by 2**{e}) differ: impl {xs[:8]} model {[str(q) for q in qs[:8]]}"
+        return True, ""
+    if names is None:
+        return one(impl[1], tree)
+    for n, t in zip(names, tree):
+        ok, d = one(impl[1][n], t)
+        if not ok:
+            return False, f"{n}: {d}"
+    return True, ""
+
+
+def magnitude_seq(ctx, ff, vals0, e, rng, model=True, factors=None):
+    """linear index of a dyadic series times 2**e: formula (exact), model, sign, zero iff monotone, scaling by 2**e and by
+    factors that are not powers of two, selections"""
+    s = pow2(e)
+    vals = [v * s for v in vals0]
+    n = len(vals)
+    scale = magnitude_of(vals)
+    case = {"values": vals, "unscaled": vals0, "exponent_of_two": e}
+    got = core.call_impl(ff.flip_flop_index, seq_da(vals), "t")
+    finite = all(np.isfinite(vals))
+    ctx.case(("mag", tuple(vals0), e), nontrivial=finite and n >= 3)
+    ctx.count("magnitude:2^%+04d..%+04d" % (10 * (e // 10), 10 * (e // 10) + 9) if abs(e) <= 40 else "magnitude:beyond 2^+-40")
+    if got[0] != "ok":
+        ctx.violation("flip_flop_index raises on a plain sequence", case, "a value", got[1])
+        return
+    v = float(got[1])
+    want = o_linear(vals)                                # N = 1: (0 - 0)/(-1) = 0; N = 2: 0/0 = NaN
+    if not rel_close(v, want, scale):
+        ctx.violation("flip_flop_index differs from (sum|dx| - (max-min))/(N-2) relative to the magnitude of the data "
+                      "(series scaled by a power of two)", case, str(want), v)
+    if model:
+        m_lin = core.dec_nums(ctx.model("c18_seq", enc_list([enc_nums(vals)])))[0]
+        if not rel_close(v, m_lin, scale):
+            ctx.tie_fail("flip_flop_index vs model (scaled series)", case, v, str(m_lin))
+    if not finite or n < 3:
+        return
+    if v < 0:
+        ctx.violation("flip_flop_index is negative", case, ">= 0", v)
+    mono = is_monotone(vals)
+    if mono != (v == 0.0):
+        ctx.violation("flip_flop_index is zero exactly for monotone sequences (series scaled by a power of two)", case,
+                      "zero" if mono else "positive", v)
+    # scaling: index(2**e x) = 2**e index(x), exactly
+    base = float(ff.flip_flop_index(seq_da(vals0), "t"))
+    if not rel_close(v, Fraction(base) * Fraction(s), scale):
+        ctx.violation("flip_flop_index invariance: scale (power of two)", {"values": vals0, "k": s, "transformed": vals},
+                      base * s, v)
+    # ... and by factors that are not powers of two (the products round: relative tolerance, no absolute floor)
+    for k in (rng.sample(FACTORS, 2) if factors is None else factors):
+        w = [k * x for x in vals0]
+        g = float(ff.flip_flop_index(seq_da(w), "t"))
+        sc = magnitude_of(w)
+        ctx.case(("mag-factor", tuple(vals0), k))
+        if not rel_close(g, Fraction(abs(k)) * Fraction(base), sc, 1e-9):
+            ctx.violation("flip_flop_index invariance: scale", {"values": vals0, "k": k, "transformed": w}, abs(k) * base, g)
+        if not rel_close(g, o_linear(w), sc, 1e-9):
+            ctx.violation("flip_flop_index differs from (sum|dx| - (max-min))/(N-2) relative to the magnitude of the data",
+                          {"values": w, "unscaled": vals0, "factor": k}, str(o_linear(w)), g)
+    # selections on the scaled series: the index of exactly the selected sub-sequence
+    labels = rng.sample(range(-3, 12), n)
+    sels = gen_selections(rng, labels, bad_p=0.0)
+    res = core.call_impl(ff.flip_flop_index, seq_da(vals, labels), "t", **sels)
+    ctx.case(("mag-sel", tuple(vals0), e, repr(sels)))
+    if res[0] != "ok":
+        ctx.violation("flip_flop_index with selections raises", dict(case, labels=labels, selections=sels), "values", res[1])
+        return
+    for name, lab in sels.items():
+        sub = [vals[labels.index(x)] for x in lab]
+        w_sub = o_linear(sub)
+        g = float(res[1][name])
+        if not rel_close(g, w_sub, scale):
+            ctx.violation("selection differs from the index of the selected sub-sequence (series scaled by a power of two)",
+                          dict(case, labels=labels, selection=lab, sub_sequence=sub), str(w_sub), g)
+
+
+def exact_thresholds(rng, idx):
+    """thresholds that separate / hit the exact index values: mid-points, half the smallest positive one, and the values
+    themselves when the division by N - 2 is exact in binary64"""
+    pos = sorted({q for q in idx if not isinstance(q, float)})
+    cand = set()
+    for a, b in zip(pos, pos[1:]):
+        cand.add((a + b) / 2)
+    for q in pos:
+        if q > 0:
+            cand.add(q / 2)
+            break
+    for q in pos:
+        if Fraction(float(q)) == q:
+            cand.add(q)
+    if pos:
+        cand.add(pos[-1] * 2 + 1)
+    cand = sorted(c for c in cand if Fraction(float(c)) == c)
+    if not cand:
+        return []
+    return sorted(rng.sample(cand, min(len(cand), rng.randint(1, 4))))
+
+
+def magnitude_proportion(ctx, ff, rng):
+    """flip_flop_index_proportion_exceeding (with and without selections) on several series of one small / large magnitude:
+    the fraction of valid exact index values >= threshold"""
+    n = rng.randint(3, 7)
+    m = rng.randint(2, 6)
+    e = gen_exponent(rng)
+    mixed = rng.random() < 0.25               # the stations do not share one magnitude
+    rows0 = [gen_seq(rng, n, False, nan_p=0.1 if rng.random() < 0.2 else 0.0) for _ in range(m)]
+    es = [e + (rng.randint(-3, 3) if mixed else 0) for _ in range(m)]
+    rows = [[v * pow2(ei) for v in r] for r, ei in zip(rows0, es)]
+    labels = rng.sample(range(-3, 12), n)
+    da = xr.DataArray(np.array(rows, dtype=float), dims=["x", "t"], coords={"x": list(range(m)), "t": labels})
+    if rng.random() < 0.5:
+        da = da.transpose("t", "x")
+    sels = {"all": None}
+    if rng.random() < 0.6:
+        sels.update(gen_selections(rng, labels, bad_p=0.0))
+    sub = {k: [[r[labels.index(x)] for x in lab] if lab is not None else r for r in rows] for k, lab in sels.items()}
+    idx = {k: [o_linear(r) for r in rs] for k, rs in sub.items()}
+    thr = exact_thresholds(rng, [q for qs in idx.values() for q in qs])
+    if not thr:
+        return
+    tf = [float(t) for t in thr]
+    kw = {k: v for k, v in sels.items() if v is not None}
+    case = {"data": gens.da_repr(da), "sampling_dim": "t", "thresholds": tf, "selections": kw, "exponents_of_two": es}
+    res = core.call_impl(ff.flip_flop_index_proportion_exceeding, da, "t", tf, **kw)
+    ctx.case(("mag-prop", repr(case)))
+    ctx.count("magnitude:proportion")
+    if res[0] != "ok":
+        ctx.violation("flip_flop_index_proportion_exceeding raises", case, "values", res[1])
+        return
+    for k in sels:
+        if k == "all" and kw:
+            continue
+        out = res[1][k] if kw else res[1]
+        valid = [q for q in idx[k] if not isinstance(q, float)]
+        for t, t_f in zip(thr, tf):
+            want = Fraction(sum(1 for q in valid if q >= t), len(valid)) if valid else NAN
+            g = float(out.sel(threshold=t_f).values.ravel()[0])
+            if not core.close(g, want):
+                ctx.violation("proportion exceeding differs from the fraction of valid indices >= threshold (small / large magnitude data)",
+                              dict(case, selection=k, threshold=t_f, exact_index_values=[str(q) for q in idx[k]]), str(want), g)
+
+
+def magnitude_stream(ctx, ff, rng, nseq, nprop, model=True):
+    for i in range(nseq):
+        if not ctx.time_left():
+            break
+        vals0 = gen_seq(rng, rng.randint(3, 8) if rng.random() < 0.9 else rng.randint(1, 2), False, nan_p=0.15 if rng.random() < 0.15 else 0.0)
+        magnitude_seq(ctx, ff, vals0, gen_exponent(rng), rng, model)
+    for i in range(nprop):
+        if not ctx.time_left():
+            break
+        magnitude_proportion(ctx, ff, rng)
+
+
+
+# ------------------------------------------------------------------------------------------
 # checks
 # ------------------------------------------------------------------------------------------
 def seq_level(ctx, ff, vals, note):
@@ -357,13 +572,17 @@ def rotation(ctx, ff, vals, rng, rot=None):
 def array_level(ctx, ff, rng, i):
     angular = rng.random() < 0.5
     da, sd, labels = gen_array(rng, angular, nan_p=0.1 if rng.random() < 0.4 else 0.0)
-    desc = {"fn": "flip_flop_index", "data": gens.da_repr(da), "sampling_dim": sd, "is_angular": angular}
+    e = gen_exponent(rng) if (not angular and rng.random() < 0.35) else 0       # linear data of small / large magnitude (exact scaling)
+    if e:
+        da = da * pow2(e)
+        ctx.count("ff_array:scaled")
+    desc = {"fn": "flip_flop_index", "data": gens.da_repr(da), "sampling_dim": sd, "is_angular": angular, "exponent_of_two": e}
     bad_dim = rng.random() < 0.05
     sdq = "zz" if bad_dim else sd
     if rng.random() < 0.5:
         impl = core.call_impl(ff.flip_flop_index, da, sdq, is_angular=angular)
         m = ctx.model("c18_ff", enc_list([enc_data(da, sd), enc_str(sdq), enc_bool(angular)]))
-        ok, why = core.compare_result(impl, m)
+        ok, why = compare_scaled(impl, m, e)
         ctx.count("ff_array")
     else:
         sels = gen_selections(rng, labels)
@@ -371,7 +590,7 @@ def array_level(ctx, ff, rng, i):
         impl = core.call_impl(ff.flip_flop_index, da, sdq, is_angular=angular, **sels)
         el, es = enc_sels(labels, sels)
         m = ctx.model("c18_ff_sel", enc_list([enc_data(da, sd), enc_str(sdq), enc_bool(angular), el, es]))
-        ok, why = core.compare_dataset(impl, m, list(sels))
+        ok, why = compare_scaled(impl, m, e, list(sels))
         ctx.count("ff_selections")
         # selections = index of the selected sub-sequence (relation between public calls)
         for name, vals in sels.items():
@@ -383,7 +602,7 @@ def array_level(ctx, ff, rng, i):
             if impl[0] != "ok":
                 continue
             got = impl[1][name]
-            if set(got.dims) != set(direct[1].dims) or not np.allclose(np.asarray(direct[1].values, float), np.asarray(got.transpose(*direct[1].dims).values, float), rtol=1e-9, atol=1e-12, equal_nan=True):
+            if set(got.dims) != set(direct[1].dims) or not np.allclose(np.asarray(direct[1].values, float) * pow2(-e), np.asarray(got.transpose(*direct[1].dims).values, float) * pow2(-e), rtol=1e-9, atol=1e-12, equal_nan=True):
                 ctx.violation("selection differs from the index of the selected sub-sequence", dict(desc, selection=name), str(direct[1].values), str(got.values))
     ctx.count("ok" if impl[0] == "ok" else impl[1])
     nontrivial = impl[0] == "ok" and (bool(np.isfinite(np.asarray(impl[1].to_array() if isinstance(impl[1], xr.Dataset) else impl[1])).any()))
@@ -421,15 +640,19 @@ def sector_level(ctx, ff, rng, i):
 def prop_level(ctx, ff, rng, i):
     angular = rng.random() < 0.4
     da, sd, labels = gen_array(rng, angular, nan_p=0.1 if rng.random() < 0.4 else 0.0, min_len=3)
+    e = gen_exponent(rng) if (not angular and rng.random() < 0.35) else 0       # data and thresholds of small / large magnitude
+    if e:
+        da = da * pow2(e)
+        ctx.count("prop:scaled")
     others = [d for d in da.dims if d != sd]
     base = core.call_impl(ff.flip_flop_index, da, sd, is_angular=angular)
-    pool = [float(Fraction(rng.randint(0, 40), 4)) for _ in range(4)]
+    pool = [float(Fraction(rng.randint(0, 40), 4)) * pow2(e) for _ in range(4)]
     if base[0] == "ok":
         # thresholds equal to index values (only dyadic ones: a threshold must be the same rational for code and model)
-        pool += [float(v) for v in np.asarray(base[1].values, float).ravel() if np.isfinite(v) and float(v * 64).is_integer()]
+        pool += [float(v) for v in np.asarray(base[1].values, float).ravel() if np.isfinite(v) and float(v * pow2(-e) * 64).is_integer()]
     thr = sorted(rng.sample(pool, min(len(pool), rng.randint(1, 3))))
     if rng.random() < 0.05:
-        thr = list(reversed(thr)) + [thr[0] + 1, thr[0]]
+        thr = list(reversed(thr)) + [thr[0] + pow2(e), thr[0]]
     rd, pd = gens.rand_dimspec(rng, others, allow_bad=True)
     if rng.random() < 0.06:
         rd, pd = ([sd], None) if rng.random() < 0.5 else (None, [sd])
@@ -440,7 +663,7 @@ def prop_level(ctx, ff, rng, i):
         kw["preserve_dims"] = pd
     sels = gen_selections(rng, labels) if rng.random() < 0.4 else {}
     desc = {"fn": "flip_flop_index_proportion_exceeding", "data": gens.da_repr(da), "sampling_dim": sd, "thresholds": thr, "is_angular": angular,
-            "reduce_dims": rd, "preserve_dims": pd, "selections": sels}
+            "reduce_dims": rd, "preserve_dims": pd, "selections": sels, "exponent_of_two": e}
     impl = core.call_impl(ff.flip_flop_index_proportion_exceeding, da, sd, thr, is_angular=angular, **kw, **sels)
     el, es = enc_sels(labels, sels)
     m = ctx.model("c18_prop_exc", enc_list([enc_data(da, sd), enc_str(sd), enc_nums(thr), enc_bool(angular), enc_dimspec(rd), enc_dimspec(pd), el, es]))
@@ -480,7 +703,13 @@ def replay(ctx, obj):
     vs = vs + [c for c in (obj.get("no_longer_checks") or {}).get("correspondence", []) if "case" in c]
     for v in vs:
         c = v["case"]
-        if isinstance(c, dict) and "values" in c:
+        if isinstance(c, dict) and "unscaled" in c:
+            # magnitude stream: the dyadic series, its power of two and every non-dyadic factor
+            extra = [_num(c["factor"])] if "factor" in c else []
+            magnitude_seq(ctx, ff, [_num(x) for x in c["unscaled"]], int(c.get("exponent_of_two", 0)), rng, factors=FACTORS + extra)
+        elif isinstance(c, dict) and "values" in c and "k" in c and "c" not in c:
+            magnitude_seq(ctx, ff, [_num(x) for x in c["values"]], 0, rng, factors=FACTORS + [_num(c["k"])])
+        elif isinstance(c, dict) and "values" in c:
             vals = [_num(x) for x in c["values"]]
             seq_level(ctx, ff, vals, "replay")
             if all(np.isfinite(vals)):
@@ -561,6 +790,7 @@ def run(ctx):
             else:
                 invariances(ctx, ff, vals, rng)
     oracle_stream(ctx, ff, rng, ctx.n(60, 1500), ctx.n(25, 400))
+    magnitude_stream(ctx, ff, rng, ctx.n(160, 4000), ctx.n(60, 1500))
     for i in range(ctx.n(250, 8000)):
         if not ctx.time_left():
             break
@@ -607,3 +837,4 @@ def run_without_model(ctx):
             else:
                 invariances(ctx, ff, vals, rng)
     oracle_stream(ctx, ff, rng, ctx.n(100, 2000), ctx.n(60, 600))
+    magnitude_stream(ctx, ff, rng, ctx.n(250, 5000), ctx.n(100, 2000), model=False)
